@@ -358,6 +358,29 @@ def run_file(ctx, rnd, ncases):
             except Exception:
                 pass
             judge_events(ctx, list(EVENTS), t, cx, sup, nt, form, text + f"# FLAG={flags}")
+    # history: the same file is edited (other lambdas at the same and at shifted lines) and loaded again in this process
+    if rnd.random() < 0.5:
+        lg2 = LG(random.Random(rnd.random()))
+        keep = rnd.random() < 0.5  # same number of cases (lines mostly coincide) or a different one (everything shifts)
+        cases2 = [lg2.func(i) for i in range(ncases if keep else max(5, ncases - rnd.randint(1, 9)))]
+        src2 = HEADER + "\n".join(c[5] for c in cases2)
+        try:
+            compile(src2, "<gen>", "exec")
+        except SyntaxError:
+            ctx.count("harness:generated-file-syntax-error")
+            modgen.unload(m)
+            return
+        m.FLAG[:] = [True, True]
+        modgen.rewrite(m, src2)
+        ctx.count("files-edited-and-reloaded")
+        for i, (t, cx, sup, nt, form, text) in enumerate(cases2):
+            del EVENTS[:]
+            try:
+                getattr(m, f"case{i}")(m.DS())
+            except Exception:
+                pass
+            ctx.count("cases-after-reload")
+            judge_events(ctx, list(EVENTS), t, "reloaded:" + cx, sup, True, form, text + "# after the file was edited and reloaded")
     modgen.unload(m)
 
 
